@@ -6,8 +6,8 @@ WT=${SEEDQ_WT:-/tmp/wt-seedq}
 [ -d $WT ] || git -C /repo worktree add --detach $WT HEAD >/dev/null 2>&1
 for item in "$@"; do
   ID=${item%%/*}; D=$(readlink -f /tmp/seed-$ID-out/${item#*/})
-  git -C $WT checkout -q -- . ; git -C $WT clean -qfd rsass/tests rsass/src rsass-cli/src; git -C $WT checkout -q --detach $(git -C /repo rev-parse HEAD)
-  if ! git -C $WT apply "$D/patch.diff" 2>/dev/null; then echo "RECHECK $item: patch does not apply to /repo HEAD"; continue; fi
+  git -C $WT reset -q --hard; git -C $WT clean -qfd rsass/tests rsass/src rsass-cli/src; git -C $WT checkout -q --detach $(git -C /repo rev-parse HEAD)
+  if ! git -C $WT apply "$D/patch.diff" 2>/dev/null && ! git -C $WT apply -3 "$D/patch.diff" 2>/dev/null; then echo "RECHECK $item: patch does not apply to /repo HEAD"; continue; fi
   out=$(VERIF_REPO=$WT timeout 2400 ./check $ID quick 2>&1); rc=$?
   mkdir -p /tmp/seedq-out; echo "$out" | tail -60 > /tmp/seedq-out/$(echo $item | tr / -).log
   v=$(echo "$out" | grep -c "^VIOLATION property=$ID")
